@@ -32,7 +32,10 @@ POOL = ["y", "Y", "x", "X1", "x1", "y^", "y*", "y_", "_y", "__y", "y__", "<p>y",
         "localy", "global_y", "self", "class", "if", "lambda", "1f", "9", "0", "t", "dt", "<t>", "<dt>", "refcnt_y",
         "p_y", "state_y", "<p>p_y", "temp", "tmp", "y_0", "y_1", "Y_0", "lploc_y_0", "<state>y_0", "<p>state_y",
         "a" * 57, "a" * 58, "b" * 80, "<p>" + "c" * 60, "<state>" + "D" * 70, "a" * 57 + "B", "a" * 57 + "b",
-        "<>", "<<>>", ":", "a:b", "a.b", "a b", "é", "<func>", "<p>"]
+        "<>", "<<>>", ":", "a:b", "a.b", "a b", "é", "<func>", "<p>",
+        # punctuation / underscores in front of a keyword: the sanitised form, not the name, decides legality
+        "_class", "__pass", "^lambda", "<if", "_if", "*class", "<func>_class", "<func>^lambda", "<func>_if",
+        "None", "_None", "True", "^True", "<func>None", "<func>^True"]
 
 PY_RESERVED = {"self.t", "self.dt", "self.next_phase", "self._numpy", "self._functions", "self.phase_transition_table",
                "self.StateComputed", "self.StepCompleted", "self.StepFailed", "self.run", "self.set_up",
@@ -106,6 +109,7 @@ def check_fortran(ops):
     from dagrt.codegen.fortran import FortranNameManager
     nm = FortranNameManager()
     first = {}
+    first_rc, issued_rc = {}, {}
     issued = {}     # lower-cased bare identifier -> description
     for kind, name in ops:
         try:
@@ -136,6 +140,23 @@ def check_fortran(ops):
         if not fortran_legal(bare):
             return "Fortran: %s %r is mapped to %r, which is not a legal identifier (%s)" % (
                 kind, name, bare, "%d characters" % len(bare) if len(bare) > 63 else "syntax")
+        if kind == "var" and name not in ("<t>", "<dt>"):
+            # the identifier of the variable's reference count (user-type variables get one)
+            try:
+                rc = nm.name_refcount(name)
+            except Exception as e:
+                return "Fortran: name_refcount(%r) raised %s: %s" % (name, type(e).__name__, e)
+            rc_bare = rc[len("dagrt_state%"):] if rc.startswith("dagrt_state%") else rc
+            if not fortran_legal(rc_bare):
+                return "Fortran: reference count of %s %r is %r, which is not a legal identifier (%s)" % (
+                    kind, name, rc_bare, "%d characters" % len(rc_bare) if len(rc_bare) > 63 else "syntax")
+            if key in first_rc and first_rc[key] != rc:
+                return "Fortran: reference count of %r mapped to %s, earlier to %s" % (name, rc, first_rc[key])
+            first_rc[key] = rc
+            low_rc = rc.lower()       # a component of dagrt_state and a local variable live in different name spaces
+            if low_rc in issued_rc and issued_rc[low_rc] != key:
+                return "Fortran: reference counts of %r and %r are both %r" % (name, issued_rc[low_rc][1], rc_bare)
+            issued_rc[low_rc] = key
         if bare.lower() in F_RESERVED and not (kind == "var" and name in ("<t>", "<dt>")):
             return "Fortran: %s %r is mapped to the reserved identifier %r" % (kind, name, bare)
         if not known:
